@@ -137,9 +137,12 @@ class Model:
             except SyntaxError as exc:  # pragma: no cover
                 raise AnalysisError(f"cannot parse {path}: {exc}") from exc
             if os.environ.get("DROPSTAT_RAW_AST") != "1":
+                from .localroles import canon_locals
                 from .normalize import inline_module, normalize_tree
 
-                tree = inline_module(normalize_tree(tree))
+                from .prenorm import prenormalize
+
+                tree = inline_module(normalize_tree(canon_locals(prenormalize(tree), path)))
             name = path[:-3].replace("/", ".")
             if name.endswith(".__init__"):
                 name = name[: -len(".__init__")]
